@@ -346,3 +346,26 @@ V("twin: element class inherited from an intermediate base", "C04", POINT, "clas
   "class _PointCollectionBase(PointTensor, TensorCollection[Point], ABC):\n    _element_class = Point\n\n\nclass PointCollection(_PointCollectionBase):\n    pass", "silent")
 V("twin: supporting line refreshed by a method called on the result", "C06", SHAPES, "        result = super().__apply__(transformation)\n        result._line = transformation.apply(result._line)\n        return result",
   "        result = super().__apply__(transformation)\n        result._refresh_line()\n        return result\n\n    def _refresh_line(self) -> None:\n        self._line = join(*self.vertices)", "silent")
+
+
+# ------------------------------------------------------------------------------------------------ C16 membership (E11)
+TRI_NEW = "        result = ((lambda1 <= 0) & (lambda2 <= 0)) | ((lambda1 >= 0) & (lambda2 >= 0))\n"
+V("D21 regression: one-sided zero handling in the barycentric pre-filter", "C16", SHAPES, TRI_NEW, "        result = (lambda1 <= 0) == (lambda2 <= 0)\n", "E11.T", "Triangle.contains", quick=True)
+V("triangle: lambda2 not tested in the vectorised final step", "C16", SHAPES, "        result[~ind] &= (lambda1[~ind] >= 0) & (lambda2[~ind] >= 0) & (lambda3[~ind] >= 0)",
+  "        result[~ind] &= (lambda1[~ind] >= 0) & (lambda3[~ind] >= 0)", "E11.T", "Triangle.contains")
+V("triangle: strict comparison in the scalar path", "C16", SHAPES, "            return lambda1 >= 0 and lambda2 >= 0 and lambda3 >= 0", "            return lambda1 > 0 and lambda2 >= 0 and lambda3 >= 0", "E11.T", "Triangle.contains")
+V("triangle: orientation test inverted", "C16", SHAPES, "        ind = area < 0\n        result[ind] &=", "        ind = area > 0\n        result[ind] &=", "E11.T", "Triangle.contains")
+V("twin: triangle pre-filter as a product of signs", "C16", SHAPES, TRI_NEW, "        result = lambda1 * lambda2 >= 0\n", "silent")
+V("twin: triangle without the pre-filter", "C16", SHAPES, TRI_NEW, "        result = (lambda1 <= 0) | (lambda1 >= 0)\n", "silent")
+V("triangle: barycentric determinant with the wrong vertex replaced", "C16", SHAPES, "        lambda2 = det(np.stack([a, p, c], axis=-2))", "        lambda2 = det(np.stack([p, a, c], axis=-2))", "missed")
+SEG_RET = "        return result & (~x_zero | ~y_zero) & (0 <= x + tol) & (x <= y + tol)"
+V("segment: strict lower bound without tolerance", "C16", SHAPES, SEG_RET, "        return result & (~x_zero | ~y_zero) & (0 < x) & (x <= y + tol)", "E11.S", "SegmentTensor.contains", quick=True)
+V("segment: tolerance on the wrong side of the upper bound", "C16", SHAPES, SEG_RET, "        return result & (~x_zero | ~y_zero) & (0 <= x + tol) & (x <= y - tol)", "E11.S", "SegmentTensor.contains")
+V("segment: tolerance subtracted from the lower bound's value", "C16", SHAPES, SEG_RET, "        return result & (~x_zero | ~y_zero) & (0 <= x - tol) & (x <= y + tol)", "E11.S", "SegmentTensor.contains")
+V("twin: segment bounds written with >= and named conjuncts", "C16", SHAPES, SEG_RET,
+  "        lower = x + tol >= 0\n        upper = y + tol >= x\n        inside = lower & upper\n        return result & (~x_zero | ~y_zero) & inside", "silent")
+V("polygon: edge points no longer added to the parity result", "C16", SHAPES, "        result |= np.any(edge_points, axis=-1)\n", "", "E11.P", "PolygonTensor.contains", quick=True)
+V("polygon 3D: coplanarity dropped from the projected test", "C16", SHAPES, "            return coplanar & PolygonCollection.from_array(arr).contains(other)",
+  "            return PolygonCollection.from_array(arr).contains(other)", "E11.P", "PolygonTensor.contains")
+V("twin: polygon boundary added with np.logical_or in the return", "C16", SHAPES, "        result |= np.any(edge_points, axis=-1)\n\n        return result",
+  "        return result | np.any(edge_points, axis=-1)", "silent")
